@@ -10,7 +10,6 @@
 #define CDS_VERIFY_FALSE(x) ((void)(x))
 #define CDS_VERIFY_EQ(x,y) ((void)(x))
 #define CDS_STRICT_DO(x)
-#define CDS_HPSTAT(x)
 #define CDS_EXPORT_API
 #define CDS_NOEXCEPT
 #define CDS_CONSTEXPR
